@@ -1449,7 +1449,7 @@ def storage_root(v):
             if v.fn == "store":
                 v = v.args[0]
                 continue
-            if v.fn == "elem":
+            if v.fn in ("elem", "carried", "after_loop"):
                 v = v.args[0]
                 continue
             return None
